@@ -16,6 +16,8 @@ def gen_cases(report, n):
         outs = [(k, rng.choice(R.WORDS)) for k in g.bt_keys]
         # one run in six with --no-deps: only what the command line names runs, still once per (recipe, arguments)
         cfg = R.full_cfg(verbose=rng.random() < 0.5, noDeps=rng.random() < 0.17)
+        if rng.random() < 0.25:
+            cfg["aliasMask"] = rng.randint(1, 255)      # some invocations name the recipe through an alias
         cases.append({"prog": prog, "cfg": cfg, "invs": invs, "status": [], "outs": outs, "answers": []})
     return cases
 
@@ -113,7 +115,7 @@ def run(report):
     report.coverage.update({
         "evaluations": len(cases),
         "distinct_nontrivial": len(distinct),
-        "rule": "random acyclic recipe graphs (1-8 recipes, parameters with defaults, diamonds, subsequents, dependency arguments over caller parameters / literals / concatenation / backticks, words with spaces and the empty word) x command lines with repeated invocations, one run in six with --no-deps; plus graphs with <=3 recipes over a fixed edge/argument alphabet (sampled from the full space, size in stats). distinct = distinct observed traces",
+        "rule": "random acyclic recipe graphs (1-8 recipes, parameters with defaults, diamonds, subsequents, dependency arguments over caller parameters / literals / concatenation / backticks, words with spaces and the empty word) x command lines with repeated invocations, one run in six with --no-deps, one in four with some recipes named through an alias; plus graphs with <=3 recipes over a fixed edge/argument alphabet (sampled from the full space, size in stats). distinct = distinct observed traces",
         "samples": samples,
         "traces_validated_against_impl": len(cases),
         "stats": stats,
